@@ -205,4 +205,9 @@ def run(chk, facts_dir, tier):
     rb = prog.body(c11.RUN)
     chk.analysed(rb.path)
     c11.count_only_acks(chk, prog, rb, Ev(prog, rb), "R10.5")
+    # ---------------- R10.6 the storage check that backs the replicas' exact placement
+    chk.rule("R10.6", "EXACT MEANS EQUAL: the database accepts an append expecting Exact(sequence) only when the partition's next sequence is exactly sequence + 1 "
+                      "(equality, not `>`): it is the last guard that keeps a node from acknowledging a second transaction for a sequence it already holds (shared with C25 R25.6)")
+    from . import c25
+    c25.exact_sequence_gate(chk, Program(facts_dir, crates=["sierradb-lib"]), "R10.6")
     return {}
